@@ -193,15 +193,21 @@ class Project:
             except SyntaxError as e:
                 raise AnalysisError(f'{rel} does not parse: {e}')
             if not os.environ.get('VERIF_NO_CANON'):
-                from . import canon
+                from . import canon, inline
+                known = canon.reference().get(rel)
+                if known and not os.environ.get('VERIF_NO_INLINE'):
+                    st = inline.inline_module(tree, set(known))
+                    if st:
+                        self.normalised.setdefault(rel, {})['inlined'] = st
                 done = canon.canonicalise(tree, rel)
                 if done:
                     self.renamed[rel] = done
             if not os.environ.get('VERIF_NO_NORMALISE'):
                 from . import normalize
-                st = normalize.normalise(tree)
+                from . import canon as _canon
+                st = normalize.normalise(tree, _canon.reference().get(rel))
                 if st:
-                    self.normalised[rel] = st
+                    self.normalised.setdefault(rel, {}).update(st)
             set_parents(tree)
             modpath = rel[len('src/'):-3].replace('/', '.')
             is_pkg = False
